@@ -54,6 +54,9 @@ CLAIMS = {
  "C17": ("property-based testing against a reference predicate (rapid), exhaustive over the 4 x 65536 capability table in the thorough tier",
          "Every generated (server setting, client capability value, version bytes, transport) is sent as a handshake and compared with the reference predicate from the statement, including the advertised mechanisms, the version echo, the answer to the next step and the end of the tunnel on mismatch.",
          "4 C17"),
+ "C18": ("property-based testing over the configuration lattice against a must-refuse predicate on the real binary's exit status, plus cross-instance key probes (rapid)",
+         "Generated configurations are given to the real binary by file, environment or both; those the statement says must be refused have to exit non-zero without ever listening, the others have to start. config.Load is additionally checked in-process for key substitution (a configured 32-character key is kept, a shorter or absent one becomes a 32-character key that differs between instances), and pairs of real instances sharing a short key must not accept each other's access token, session cookie and user token while pairs sharing proper keys must.",
+         "4 C18"),
  "C19": ("property-based testing: round trip, independent line grammar (differential) and per-setting reference; coverage-guided fuzzing of the parser in the thorough tier",
          "Generated settings maps must survive marshal/parse; generated assignments to all RdpSettings fields must print as CRLF-terminated name:(i|s):value lines without duplicates and read back equal through NewBuilderFromFile; templates rendered from such assignments must keep every non-default setting the gateway does not control and carry the gateway's values for the controlled ones (through web.Handler.HandleDownload); arbitrary byte strings are parsed differentially against the harness's own line grammar (error iff some line is malformed).",
          "4 C19"),
